@@ -16,6 +16,15 @@ fn show(c: &Confirm) -> String {
 impl Engine for SmootherEngine {
     fn step(&mut self, toks: &[&str], out: &mut Vec<String>) {
         match toks {
+            // `ConfirmSmoother::default()` (= `new()`: the first expected tag is 1)
+            ["default"] => {
+                self.sm = Some(ConfirmSmoother::default());
+                out.push("ok".into());
+            }
+            ["new-plain"] => {
+                self.sm = Some(ConfirmSmoother::new());
+                out.push("ok".into());
+            }
             ["new", n] => match n.parse::<u64>() {
                 Ok(k) => {
                     self.sm = Some(ConfirmSmoother::with_expected_delivery_tag(k));
